@@ -58,3 +58,37 @@ func vh_find_route() {
 	vassert(r.RemoteAddress == remote && r.LocalLinkAddress == nics[nicID-1].linkEP.LinkAddress(), "remote address and local link address are filled in")
 	vreach("route")
 }
+
+// FindRoute with a requested local address, with and without spoofing: the source is the
+// requested address only if it is an address of the interface (or spoofing is enabled), and
+// a spoofed route never changes the source of later routes of unbound sockets.
+func vh_find_route_local() {
+	s := VHStack()
+	np := &vhNetProto{}
+	VHAddProtocols(s, []NetworkProtocol{np}, nil)
+	n := VHNIC(s, 1, &VHLink{Mtu: 1500, Addr: "\x02\x00\x00\x00\x00\x01"})
+	a := vhAddr4("nicaddr")
+	vassume(a != "\xff\xff\xff\xff" && a != "\x00\x00\x00\x00")
+	vassert(n.AddAddress(vhNetP, a) == nil, "address added")
+	spoof := vnBool("spoofing")
+	n.spoofing = spoof
+	s.routeTable = []tcpip.Route{{Destination: "\x00\x00\x00\x00", Mask: "\x00\x00\x00\x00", NIC: 1}}
+	remote := vhAddr4("remote")
+	local := vhAddr4("local")
+	vassume(local != "\xff\xff\xff\xff" && local != "\x00\x00\x00\x00")
+	r1, err := s.FindRoute(0, local, remote, vhNetP)
+	if local == a {
+		vassert(err == nil && r1.LocalAddress == a, "a bound socket's source is its own address when the interface has it")
+		vreach("own")
+	} else if spoof {
+		vassert(err == nil && r1.LocalAddress == local, "with spoofing enabled the requested source is used")
+		vreach("spoofed")
+	} else {
+		vassert(err == tcpip.ErrNoRoute, "a source that is not an address of the interface gives no route")
+		vreach("refused")
+	}
+	// an unbound socket afterwards (the first route still alive)
+	r2, err2 := s.FindRoute(0, "", remote, vhNetP)
+	vassert(err2 == nil && r2.LocalAddress == a, "the source of an unbound socket is an address of the interface, whatever routes exist")
+	vassert(r2.LocalLinkAddress == n.linkEP.LinkAddress() && r2.RemoteAddress == remote, "link address and remote filled in")
+}
